@@ -97,3 +97,9 @@ A(M("c15e-r3-no-icode", ["C15"], T2, '            if "pdbx_PDB_ins_code" in colu
 A(M("c15e-r3-dropna", ["C15"], T2, "grouped = self.atoms.groupby(groupby_cols, dropna=False, observed=False)", "grouped = self.atoms.groupby(groupby_cols, observed=False)", "group-columns", **S3))
 A(M("c15e-r3-pdb-order", ["C15"], T2, 'col for col in ("chainID", "resSeq", "iCode") if col in columns', 'col for col in ("resSeq", "chainID", "iCode") if col in columns', "group-columns", **S3))
 A(M("c15e-r3-prefix-silent", ["C15"], T2, 'prefix = "auth" if has_auth else "label"', 'prefix = "label" if not has_auth else "auth"', kind="silent", **S3))
+
+# ---- other shapes of the same code: the evaluated rules must stay silent (and evaluable)
+A(M("c08e-iterate-file-silent", ["C08", "C15"], PA, "    for line in pdb.readlines():\n        if line.startswith(\"MODEL\"):", "    for line in pdb:\n        if line.startswith(\"MODEL\"):", kind="silent"))
+A(M("c08e-splitlines-silent", ["C08", "C15"], PA, "    for line in pdb.readlines():\n        if line.startswith(\"MODEL\"):", "    for line in pdb.read().splitlines():\n        if line.startswith(\"MODEL\"):", kind="silent"))
+A(M("c08e-record-name-slice-silent", ["C08", "C15"], PA, 'elif line.startswith("ATOM") or line.startswith("HETATM"):', 'elif line[:6] in ("ATOM  ", "HETATM"):', kind="silent"))
+A(M("c08e-record-name-strip", ["C08"], PA, 'elif line.startswith("ATOM") or line.startswith("HETATM"):', 'elif line.split()[0] in ("ATOM", "HETATM"):', ["pdb-atom-branch", "pdb-record-loop"]))
